@@ -14,7 +14,7 @@ ANCHOR_FILES = ["menelaus/change_detection/adwin.py", "menelaus/change_detection
                 "menelaus/data_drift/kdq_tree.py", "menelaus/data_drift/nndvi.py", "menelaus/data_drift/histogram_density_method.py"]
 RULE = (
     "one case per (detector family, base parameters, generated history): the history is run once per value of the detection threshold "
-    "(3-5 ordered values, strictest last) with all other parameters and the per-call numpy seed identical; the index of the first "
+    "(3-7 ordered values, strictest last; the fixed table of the family in half of the cases, values drawn from the family's range in the other half) with all other parameters and the per-call numpy seed identical; the index of the first "
     "reported drift must be non-decreasing with strictness.  For DDM / EDDM / STEPD / LinearFourRates the warning threshold alone is "
     "varied as well: the drift trace must be identical and the set of warning indices of the looser setting must contain that of the "
     "stricter.  Non-trivial = the first-drift indices of at least two settings differ; distinct = (family, parameters, input digest)."
@@ -43,6 +43,39 @@ FAMILIES = {
     "CDBD.tstat": ("CDBD", "significance", [0.3, 0.1, 0.05, 0.01, 0.0]),
     "CDBD.stdev": ("CDBD", "significance", [0.0, 0.2, 0.5, 1.0, 2.0]),
 }
+# family -> (low, high, log-uniform?, strict = "high" / "low", boundary value appended at the strict end or None): half of the cases
+# draw their own ordered values from these ranges instead of the fixed tables above
+RANGES = {
+    "ADWIN.delta": (1e-6, 1.0, True, "low", None),
+    "ADWINAccuracy.delta": (1e-4, 1.0, True, "low", None),
+    "CUSUM.threshold": (0.5, 25.0, True, "high", None),
+    "PageHinkley.threshold": (0.02, 20.0, True, "high", None),
+    "DDM.drift_scale": (0.0, 5.0, False, "high", None),
+    "EDDM.drift_thresh": (0.05, 0.97, False, "low", 0.0),
+    "STEPD.alpha_drift": (1e-5, 0.05, True, "low", 0.0),
+    "LinearFourRates.detect_level": (0.002, 0.2, True, "low", None),
+    "KdqTreeStreaming.alpha": (0.005, 0.5, True, "low", 0.0),
+    "KdqTreeBatch.alpha": (0.005, 0.5, True, "low", 0.0),
+    "NNDVI.alpha": (0.002, 0.45, True, "low", 0.0),
+    "HDDDM.tstat": (0.003, 0.4, True, "low", 0.0),
+    "HDDDM.stdev": (0.0, 2.5, False, "high", None),
+    "CDBD.tstat": (0.003, 0.4, True, "low", 0.0),
+    "CDBD.stdev": (0.0, 2.5, False, "high", None),
+}
+
+
+def draw_values(fam, rng, k):
+    lo, hi, logu, strict, bound = RANGES[fam]
+    if logu:
+        v = np.exp(rng.uniform(np.log(lo), np.log(hi), size=k))
+    else:
+        v = rng.uniform(lo, hi, size=k)
+    v = sorted({float(np.round(x, 6)) for x in v}, reverse=(strict == "low"))
+    if bound is not None and rng.random() < 0.5:
+        v.append(bound)
+    return v
+
+
 # warning thresholds, from strict to loose
 WARN = {
     "DDM.warning_scale": ("DDM", "warning_scale", [2.0, 1.5, 1.0, 0.5]),
@@ -57,7 +90,7 @@ def cases(tier, seed):
     out = []
     for fam in FAMILIES:
         cost = 4 if fam.startswith(("Kdq", "Linear", "NNDVI")) else 1
-        for i in range(n * 4 if fam.startswith(("HDDDM", "CDBD")) else (n * 2 if fam.startswith(("Linear", "NNDVI", "KdqTreeBatch", "DDM")) else n)):
+        for i in range(n * 4 if fam.startswith(("HDDDM", "CDBD")) else (n * 4 if fam.startswith("NNDVI") else (n * 2 if fam.startswith(("Linear", "KdqTreeBatch", "DDM", "PageHinkley", "CUSUM")) else n))):
             out.append({"id": "drift/%s/%d" % (fam, i), "kind": "drift", "fam": fam, "seed": [seed, 17, i], "cost": cost})
     for fam in WARN:
         for i in range(n):
@@ -88,6 +121,9 @@ def base_params(det, rng, fam):
         p["warning_level"] = 0.45
     if det == "CUSUM":
         p["target"], p["sd_hat"] = (None, None) if rng.random() < 0.5 else (0.0, 1.0)
+    if det == "NNDVI":
+        # many and few re-assignments: the critical value of a setting may be governed by the bulk or by the tail of the sampled distances
+        p["sampling_times"] = int(rng.choice([10, 40, 150, 400]))
     return p
 
 
@@ -116,8 +152,35 @@ def run_case(case, ctx):
     table = FAMILIES if case["kind"] == "drift" else WARN
     det, pname, values = table[fam]
     rng = gen.rng_for(case["seed"], fam)
+    if case["kind"] == "drift" and case["seed"][-1] % 2 == 1:
+        values = draw_values(fam, gen.rng_for(case["seed"], fam, "values"), 4 if det == "LinearFourRates" else 6)
+        ctx.count("cases_with_drawn_threshold_values")
     p0 = base_params(det, rng, fam)
     items = zoo.workload(det, rng, p0, length=int(rng.integers(20, 45)) if det in ("HDDDM", "CDBD") else None)
+    if det in ("NNDVI", "KdqTreeBatch", "HDDDM", "CDBD") and rng.random() < 0.4:
+        # a slow drift: the statistic creeps up to the critical value over many batches, so the first alarm of each setting is decided
+        # by small differences between their critical values
+        d_ = items[0].shape[1]
+        nb = int(rng.integers(15, 40))
+        m_ = int(rng.integers(25, 70))
+        step = float(rng.choice([0.01, 0.02, 0.05])) * np.r_[1.0, rng.uniform(0, 1, size=d_ - 1)]
+        items = [rng.normal(size=(m_, d_))] + [rng.normal(size=(m_, d_)) + step * k_ for k_ in range(nb)]
+        ctx.count("slow_drift_histories")
+        if det == "NNDVI" and case["kind"] == "drift" and rng.random() < 0.6:
+            # settings on both sides of the resolution 1 / sampling_times of the sampled distances
+            c_ = 1.0 / p0["sampling_times"]
+            values = sorted({float(np.round(min(0.45, c_ * np.exp(u)), 6)) for u in rng.uniform(-1.6, 1.6, size=6)}, reverse=True)
+    if det in ("PageHinkley", "CUSUM", "ADWIN") and rng.random() < 0.3:
+        # a quiet stream with one early change (inside or just after the warm-up period) and nothing else: whatever a setting
+        # does with evidence it cannot report yet decides when - and whether - the change is reported
+        burn = int(p0.get("burn_in", 10))
+        n_ = int(rng.integers(3 * burn + 20, 5 * burn + 120))
+        at = int(rng.integers(1, burn + 5))
+        a_, b_ = float(rng.choice([1.0, 2.0, 5.0])), float(rng.choice([0.5, 1.0, 2.0]))
+        up = 1.0 if (p0.get("direction") != "negative") else -1.0
+        noise = float(rng.choice([0.01, 0.05, 0.2]))
+        items = [float(a_ + 4.0 + (up * b_ if i >= at else 0.0) + rng.uniform(-noise, noise)) for i in range(n_)]
+        ctx.count("quiet_streams_with_one_early_change")
     if det == "PageHinkley":
         lo = min(items)
         items = [v - lo + 1.0 for v in items]
